@@ -1,11 +1,13 @@
 CONSTANTS
   MaxReq = 3
-  Kinds <- AllKinds
+  Kinds <- EnvAll
   GapKinds <- Gaps01
   UniformGaps = FALSE
   PipeCap = 2
   BigChunks = 3
   BreakOutAfterPanic = TRUE
+  DrainAbandoned = TRUE
+  RespawnOnEpipe = TRUE
 CHECK_DEADLOCK FALSE
 SPECIFICATION FairSpec
 PROPERTIES Progress
